@@ -184,7 +184,7 @@ func (cl *Loader) load(file string) (config map[string]interface{}, err error) {
 				return nil, fmt.Errorf("load import error: %v", err)
 			}
 
-			err = mergo.Merge(&config, raw, mergo.WithOverride, mergo.WithAppendSlice, mergo.WithTypeCheck)
+			err = mergeDocuments(&config, raw)
 			if err != nil {
 				return nil, err
 			}
@@ -235,13 +235,25 @@ func (cl *Loader) loadDir(dir string) (map[string]interface{}, error) {
 			return nil, fmt.Errorf("%s: %v", importFile, err)
 		}
 
-		err = mergo.Merge(&cm, cml, mergo.WithOverride, mergo.WithAppendSlice, mergo.WithTypeCheck)
+		err = mergeDocuments(&cm, cml)
 		if err != nil {
 			return nil, fmt.Errorf("%s: %v", importFile, err)
 		}
 	}
 
 	return cm, nil
+}
+
+// mergeDocuments merges raw document src into dst. Documents decoded from different formats
+// use different map types, which mergo can not always merge and panics on
+func mergeDocuments(dst *map[string]interface{}, src map[string]interface{}) (err error) {
+	defer func() {
+		if r := recover(); r != nil {
+			err = fmt.Errorf("unable to merge configuration: %v", r)
+		}
+	}()
+
+	return mergo.Merge(dst, src, mergo.WithOverride, mergo.WithAppendSlice, mergo.WithTypeCheck)
 }
 
 func (cl *Loader) readURL(u string) (map[string]interface{}, error) {
